@@ -94,6 +94,10 @@ pub struct GenParams {
     pub low_gas_pct: u64,
     /// number of "poor" senders whose balance only covers a few txs
     pub poor_senders: u64,
+    /// contracts read calldata-dependent "probe" accounts only while slot 0 is still zero and
+    /// then set slot 0: in order only the first caller touches a probe key, speculative attempts
+    /// of later transactions touch theirs too (keys no in-order execution reads)
+    pub stale_probe: bool,
 }
 
 impl Default for GenParams {
@@ -117,6 +121,7 @@ impl Default for GenParams {
             n_precompiles: 0,
             low_gas_pct: 3,
             poor_senders: 0,
+            stale_probe: false,
         }
     }
 }
@@ -358,11 +363,27 @@ pub fn generate(p: &GenParams, seed: u64) -> Case {
     // contracts
     for i in 0..n_con {
         let mut pr = r.fork(0xC0 + i);
-        let prog = progs::gen_program(&mut pr, &mix, spec, layout.table);
+        let mut prog = progs::gen_program(&mut pr, &mix, spec, layout.table);
+        if p.stale_probe {
+            let mut stmts = vec![
+                Stmt::Const(7, 0),
+                Stmt::SLoad(6, 7, mix.slots),
+                Stmt::IfNonZeroSkip(6, 4),
+                Stmt::Const(4, 0xDEAD00),
+                Stmt::Arith(4, 4, 1, progs::Arith::Add),
+                Stmt::BalanceRaw(5, 4),
+                Stmt::SLoad(5, 2, 64),
+            ];
+            stmts.append(&mut prog.stmts);
+            // make sure the marker is set even if the random body returns early: set it first
+            stmts.insert(7, Stmt::Const(5, 1));
+            stmts.insert(8, Stmt::SStore(7, mix.slots, 5));
+            prog.stmts = stmts;
+        }
         let code = progs::compile(&prog);
         let addr = layout.con(i);
         let mut storage = BTreeMap::new();
-        for s in 0..mix.slots {
+        for s in (p.stale_probe as u64)..mix.slots {
             if r.chance(1, 2) {
                 storage.insert(U256::from(s), U256::from(r.below(6)));
             }
